@@ -789,6 +789,46 @@ func (ex *Exec) concretizeOff(p Ptr) Ptr {
 	return p
 }
 
+// concretizeModel forks over up to n feasible values of x, chosen from solver models (recorded in the trail).
+func (ex *Exec) concretizeModel(x *Term, n int) *Term {
+	if x.IsConst() || ex.guard != nil {
+		return x
+	}
+	for i := 0; i < n; i++ {
+		var v uint64
+		if rec, ok := ex.auxChoice(); ok {
+			if rec.GaveUp {
+				return x
+			}
+			v = rec.V
+		} else {
+			ex.flushAsserts()
+			if ex.model == nil {
+				r, m := ex.sol.Check(nil, true, ex.syms, ex.selects)
+				if r == "sat" {
+					ex.model = m
+				}
+			}
+			ok := ex.model != nil
+			if ok {
+				ex.model.Miss = false
+				v = smt.Eval(x, ex.model, map[int]uint64{})
+				ok = !ex.model.Miss
+			}
+			if !ok {
+				ex.auxRecord(AuxRec{Site: ex.instrs, GaveUp: true})
+				return x
+			}
+			ex.auxRecord(AuxRec{Site: ex.instrs, V: v})
+		}
+		k := ex.c.Const(x.W, v)
+		if ex.branch(ex.c.Eq(x, k)) {
+			return k
+		}
+	}
+	return x
+}
+
 // load reads a value of type t through p.
 func (ex *Exec) load(p Ptr, t types.Type) Value {
 	ex.derefCheck(p)
